@@ -181,6 +181,7 @@ type regexLeaf struct {
 	baseLeaf
 	regexp *regexp.Regexp // The regexp for the leaf.
 	binds  []string       // The list of bind parameters.
+	groups []int          // The sub-match index of each bind parameter, nil means position plus one.
 }
 
 func (*regexLeaf) getMatchStyle() MatchStyle {
@@ -189,7 +190,7 @@ func (*regexLeaf) getMatchStyle() MatchStyle {
 
 func (l *regexLeaf) match(segment string, params Params, header http.Header) bool {
 	submatches := l.regexp.FindStringSubmatch(segment)
-	if len(submatches) < len(l.binds)+1 {
+	if submatches == nil {
 		return false
 	}
 
@@ -198,7 +199,11 @@ func (l *regexLeaf) match(segment string, params Params, header http.Header) boo
 	}
 
 	for i, bind := range l.binds {
-		params[bind] = submatches[i+1]
+		group := i + 1
+		if l.groups != nil {
+			group = l.groups[i]
+		}
+		params[bind] = submatches[group]
 	}
 	return true
 }
@@ -309,10 +314,14 @@ func checkMatchStyleAll(s *Segment) (bind string, capture int, ok bool) {
 }
 
 // constructMatchStyleRegex constructs a regexp from the Segment (having the
-// assumption that it's regex match style), along with bind parameter names in
-// the same order as regexp's sub-matches.
-func constructMatchStyleRegex(s *Segment) (*regexp.Regexp, []string, error) {
+// assumption that it's regex match style), along with bind parameter names and
+// the sub-match index of each bind parameter. The latter is needed because
+// user-defined expressions may contain capturing groups of their own, e.g.
+// "{name: /(a|b)c/}", and is nil when every index is the position plus one.
+func constructMatchStyleRegex(s *Segment) (*regexp.Regexp, []string, []int, error) {
 	binds := make([]string, 0, len(s.Elements))
+	groups := make([]int, 0, len(s.Elements))
+	nextGroup := 1
 	buf := bytes.NewBufferString("^")
 	for _, e := range s.Elements {
 		if e.Ident != nil {
@@ -322,18 +331,28 @@ func constructMatchStyleRegex(s *Segment) (*regexp.Regexp, []string, error) {
 			continue
 		} else if e.BindIdent != nil {
 			binds = append(binds, *e.BindIdent)
+			groups = append(groups, nextGroup)
+			nextGroup++
 			buf.WriteString("(.+)")
 			continue
 		} else if e.BindParameters == nil || len(e.BindParameters.Parameters) == 0 {
-			return nil, nil, errors.Errorf("empty segment element in position %d", e.Pos.Offset)
+			return nil, nil, nil, errors.Errorf("empty segment element in position %d", e.Pos.Offset)
 		}
 
 		for _, p := range e.BindParameters.Parameters {
 			if p.Value.Regex == nil {
-				return nil, nil, errors.Errorf("segment has non-regex literal in position %d", e.Pos.Offset)
+				return nil, nil, nil, errors.Errorf("segment has non-regex literal in position %d", e.Pos.Offset)
+			}
+
+			// The expression must be valid on its own to know how many groups it has.
+			re, err := regexp.Compile(*p.Value.Regex)
+			if err != nil {
+				return nil, nil, nil, errors.Wrapf(err, "compile regexp near position %d", e.Pos.Offset)
 			}
 
 			binds = append(binds, p.Ident)
+			groups = append(groups, nextGroup)
+			nextGroup += 1 + re.NumSubexp()
 			buf.WriteString("(")
 			buf.WriteString(*p.Value.Regex)
 			buf.WriteString(")")
@@ -343,9 +362,24 @@ func constructMatchStyleRegex(s *Segment) (*regexp.Regexp, []string, error) {
 
 	re, err := regexp.Compile(buf.String())
 	if err != nil {
-		return nil, nil, errors.Wrapf(err, "compile regexp near position %d", s.Pos.Offset)
+		return nil, nil, nil, errors.Wrapf(err, "compile regexp near position %d", s.Pos.Offset)
+	} else if re.NumSubexp() != nextGroup-1 {
+		return nil, nil, nil, errors.Errorf("unbalanced groups in regexp near position %d", s.Pos.Offset)
 	}
-	return re, binds, nil
+
+	// Most routes do not have groups in their expressions, in which case the
+	// sub-match index of a bind parameter is simply its position plus one.
+	shifted := false
+	for i, group := range groups {
+		if group != i+1 {
+			shifted = true
+			break
+		}
+	}
+	if !shifted {
+		groups = nil
+	}
+	return re, binds, groups, nil
 }
 
 // getParentBindSet returns a set of all bind parameters defined in parent
@@ -413,7 +447,7 @@ func newLeaf(parent Tree, r *Route, s *Segment, h Handler) (Leaf, error) {
 	}
 
 	// The only remaining style is regex.
-	re, binds, err := constructMatchStyleRegex(s)
+	re, binds, groups, err := constructMatchStyleRegex(s)
 	if err != nil {
 		return nil, err
 	}
@@ -434,5 +468,6 @@ func newLeaf(parent Tree, r *Route, s *Segment, h Handler) (Leaf, error) {
 		},
 		regexp: re,
 		binds:  binds,
+		groups: groups,
 	}, nil
 }
